@@ -138,7 +138,10 @@ Calls3 ==
     Call("setint", SEC3, "k", 0, "6", <<>>),     Call("setstr", SEC3, "s", 0, "v", <<>>) }
 
 (* a NULL string has no spelling in the configuration language: not part of the round trip *)
-CallsHere == IF Sch = 3 THEN Calls3 ELSE IF Sch = 2 THEN {c \in Calls : c.val # Null} ELSE Calls
+(* nor has the absence of a single (non-multi) section: a fresh context always has its instance *)
+CallsHere == IF Sch = 3 THEN Calls3
+             ELSE IF Sch = 2 THEN {c \in Calls : c.val # Null /\ ~(c.op = "rmnsec" /\ c.name = "sec")}
+             ELSE Calls
 
 Init ==
   /\ root = IF Pre = 1 THEN RootOf(PreRun) ELSE InitRoot
